@@ -348,7 +348,22 @@ class ProgGen:
             if not vs:
                 return [pr(self.e_any(sc, 2))]
             n = r.choice(vs)
-            return [asg(n, self.e_any(sc, 2, sc.lookup(n)))]
+            rhs = self.e_any(sc, 2, sc.lookup(n))
+            if sc.lookup(n) == 'str':
+                # a string may grow by a bounded amount per execution, never multiply: inside nested loops
+                # `x = x + x` (or two strings feeding each other) makes the text exponentially long, which
+                # only exercises the memory and time limits of the harness
+                def var_uses(t):
+                    if isinstance(t, tuple):
+                        if len(t) == 2 and t[0] == 'id':
+                            return 1 if sc.lookup(t[1]) in ('str', 'any', None) else 0
+                        return sum(var_uses(x) for x in t[1:])
+                    if isinstance(t, list):
+                        return sum(var_uses(x) for x in t)
+                    return 0
+                if var_uses(rhs) > 1:
+                    rhs = b('+', v(n), s(r.choice(STRS)))
+            return [asg(n, rhs)]
         if k == 6:       # element / property update
             arrs, objs = sc.visible('arr'), sc.visible('obj')
             if arrs and r.chance(1, 2):
